@@ -37,10 +37,14 @@ OPEN_STATEMENTS = [
     'again (rotated_ladder_car_unitary); not proved: that a CAR-preserving substitution is implemented by a unitary on Fock '
     'space (hence equal spectra); '
     'both checked by the Spec oracle (exact) and numpy eigvalsh at 1e-9',
-    'get_interaction_operator is proved sound (get_interaction_operator_sound: scatter loop on normal-ordered input + '
-    'normal_ordered of C03, lattice coefficients (1/D)Z[i] with tol*D <= 1); get_quadratic_hamiltonian and '
-    'get_diagonal_coulomb_hamiltonian (Hermiticity checks with tolerance, antisymmetrisation halves, V_pq = V_qp = -c/2, '
-    'which need the CAR) have no theorem yet: correspondence + Spec oracle + round-trip check only',
+    'get_interaction_operator, get_quadratic_hamiltonian and get_diagonal_coulomb_hamiltonian are proved sound for '
+    'ignore_incompatible_terms=False (get_interaction_operator_sound, get_quadratic_hamiltonian_sound, '
+    'get_diagonal_coulomb_hamiltonian_sound: scatter loop on normal-ordered input + constructor + normal_ordered of C03 + '
+    'CAR of the Spec; lattice coefficients (1/D)Z[i] with tol*D <= 1). The last two hold under per-run exact-regime flags '
+    'the driver reports (exact-regime(qh): every pairing term has exactly the conjugate partner; exact-regime(dch): the '
+    'two-body coefficients of normal_ordered(A) are real) because the source accepts a discrepancy / drops an imaginary '
+    'part below 1e-8; runs whose flag is False and ignore_incompatible_terms=True (terms dropped by design) are outside '
+    'the theorems: correspondence + Spec oracle + round trip only',
     'get_fermion_operator(MajoranaOperator): proved for the generators (majorana_generator_sound); products and sums use '
     'FermionOperator `*` and the pruning `+=` (exact regime) and are covered by the Spec oracle '
     '(get_majorana_operator(FermionOperator) is proved at full strength: get_majorana_operator_sound)',
@@ -758,7 +762,10 @@ def stream_conv(ctx):
     reqs = [{'op': 'c08.get_qh', 'A': enc_op('fermion', op.terms), 'mu': to_gq(mu), 'n': nq, 'ignore': ignore}
             for op, mu, ignore, nq, bad in items]
     ans = ctx.driver.run(reqs)
-    for (op, mu, ignore, nq, bad), m in zip(items, ans):
+    flags = ctx.driver.run([{'op': 'c08.qh_exact', 'A': enc_op('fermion', op.terms)} for op, *_ in items])
+    for (op, mu, ignore, nq, bad), m, flag in zip(items, ans, flags):
+        if 'ok' in m and not ignore:
+            st.count('exact-regime(qh):%s' % flag)
         jA = enc_op('fermion', op.terms)
         case = {'f': 'get_quadratic_hamiltonian', 'A': jA, 'chemical_potential': mu, 'n_qubits': nq,
                 'ignore_incompatible_terms': ignore}
@@ -842,8 +849,11 @@ def stream_conv(ctx):
     reqs = [{'op': 'c08.get_dch', 'A': enc_op('fermion', op.terms), 'n': nq, 'ignore': ignore}
             for op, ignore, nq, bad, _ in items]
     ans = ctx.driver.run(reqs)
+    flags = ctx.driver.run([{'op': 'c08.dch_exact', 'A': enc_op('fermion', op.terms)} for op, *_ in items])
     follow = []
-    for (op, ignore, nq, bad, tvc), m in zip(items, ans):
+    for (op, ignore, nq, bad, tvc), m, flag in zip(items, ans, flags):
+        if 'ok' in m and not ignore:
+            st.count('exact-regime(dch):%s' % flag)
         jA = enc_op('fermion', op.terms)
         case = {'f': 'get_diagonal_coulomb_hamiltonian', 'A': jA, 'n_qubits': nq, 'ignore_incompatible_terms': ignore}
         st.case(case)
